@@ -152,11 +152,12 @@ CHECKS: dict[str, tuple[str, str, str, str]] = {
     "C12": (
         "exhaustive membership sweeps: one parse('r', chr(c)) per code point per mode against set predicates",
         "All 1,114,112 code points x 4 modes for every ASCII built-in, NEWLINE and ANY, and for a family of ranges, literals and "
-        "optimizer-merged choices (all fully swept in the thorough tier); Unicode property rules by cross-mode agreement; escapes by "
+        "optimizer-merged choices (all fully swept in the thorough tier); Unicode property rules by cross-mode agreement, the general-category / XID / "
+        "case rules also against CPython's tables on version-stable code points, every Unicode rule also inside squashable choices and under predicates; escapes by "
         "probing around the decoded value in strings and range bounds; escape SEQUENCES (incl. decoded text that looks like an escape again) in "
         "plain, CI, PUSH_LITERAL and squashed-choice contexts judged on the decoded text and on every other reading; CI literals, also mixed with "
         "digits / punctuation inside squashable choices, on ASCII input.",
-        "trusted: the set predicates in pv/checks/c12.py; Unicode property rules are compared across modes only",
+        "trusted: the set predicates in pv/checks/c12.py; CPython's unicodedata on code points whose category is unchanged since Unicode 3.2 (minus U+0295, U+200C, U+200D); the other Unicode property rules are compared across modes only",
         "DESIGN.md 4/C12",
     ),
     "C08": (
